@@ -42,6 +42,7 @@ var redirect = map[string][2]string{
 	"path/filepath":               {"filepath", "verifsim/sim/simfilepath"},
 	"runtime":                     {"runtime", "verifsim/sim/simruntime"},
 	"time":                        {"time", "verifsim/sim/simtime"},
+	"context":                     {"context", "verifsim/sim/simcontext"},
 }
 
 // Report is written to sites.json.
